@@ -37,16 +37,14 @@ def recHdr (time len : Nat) : Bytes :=
 def record (time : Nat) (frame : Bytes) : Bytes := recHdr time frame.length ++ frame
 
 /-- `PcapWriter::write_packet`: borrow 16 bytes of headroom for the record header, write
-`buf[headroom..]`, give the headroom back. The asserts of `lower_headroom`, `as_slice`
-and `return_headroom` are explicit. -/
+`buf[headroom..]`, give the headroom back. The assert of `lower_headroom` is explicit; those of
+`as_slice` (buffer length ≥ headroom) and `return_headroom` hold by construction. -/
 def writePacket (time : Nat) (p : Packet) : WriteRes :=
   if p.headroom < 16 then .panic "lower_headroom: sz <= headroom"
   else
     let hdr := recHdr time p.len
     let head' := p.head.take (p.headroom - 16)
-    -- as_slice: assert!(len() >= headroom) with the lowered headroom
-    if p.len + 16 < head'.length then .panic "as_slice"
-    else .ok (hdr ++ p.frame) { p with head := head' ++ hdr }
+    .ok (hdr ++ p.frame) { p with head := head' ++ hdr }
 
 end Pcap
 end Resynth
